@@ -237,6 +237,7 @@ def stepRaw (c : RawLru K V) (op : String) (a : List Nat) (sargs : List String) 
   | "peekmut", [k, w] => let (c', r) := c.peekMut k (wArg w); done (fmtOptV r) c' {}
   | "contains", [k] => done (fmtBool (c.contains k)) c {}
   | "remove", [k] => let (c', r, e) := c.remove k; done (fmtOptV r) c' e
+  | "removeres", [k] => if c.contains k then (let (c', r, e) := c.remove k; done (fmtOptV r) c' e) else done "skip" c {}
   | "purge", [] =>
     match c.purge with
     | .error f => .fault f
@@ -305,6 +306,7 @@ def stepSlru (s : Slru K V) (op : String) (a : List Nat) : Ans :=
   | "peekmut", [k, w] => let (s', r) := s.peekMut k (wArg w); done (fmtOptV r) s' []
   | "contains", [k] => done (fmtBool (s.contains k)) s []
   | "remove", [k] => let (s', r, d) := s.remove k; done (fmtOptV r) s' d
+  | "removeres", [k] => if s.contains k then (let (s', r, d) := s.remove k; done (fmtOptV r) s' d) else done "skip" s []
   | "purge", [] =>
     match s.purge with
     | .error f => .fault f
@@ -350,6 +352,7 @@ def stepTwoQ (q : TwoQ K V) (op : String) (a : List Nat) (sargs : List String) :
   | "peekmut", [k, w] => let (q', r) := q.peekMut k (wArg w); done (fmtOptV r) q' []
   | "contains", [k] => done (fmtBool (q.contains k)) q []
   | "remove", [k] => let (q', r, d) := q.remove k; done (fmtOptV r) q' d
+  | "removeres", [k] => if q.contains k then (let (q', r, d) := q.remove k; done (fmtOptV r) q' d) else done "skip" q []
   | "purge", [] =>
     match q.purge with
     | .error f => .fault f
@@ -397,6 +400,7 @@ def stepArc (c : Arc K V) (op : String) (a : List Nat) (sargs : List String) : A
   | "peekmut", [k, w] => let (c', r) := c.peekMut k (wArg w); done (fmtOptV r) c' []
   | "contains", [k] => done (fmtBool (c.contains k)) c []
   | "remove", [k] => let (c', r, d) := c.remove k; done (fmtOptV r) c' d
+  | "removeres", [k] => if c.contains k then (let (c', r, d) := c.remove k; done (fmtOptV r) c' d) else done "skip" c []
   | "purge", [] =>
     match c.purge with
     | .error f => .fault f
@@ -448,6 +452,7 @@ def stepWT (c : WTinyLfu K V) (kh : K → UInt64) (op : String) (a : List Nat) :
   | "peekmut", [k, w] => let (c', r) := c.peekMut k (wArg w); done (fmtOptV r) c' []
   | "contains", [k] => done (fmtBool (c.contains k)) c []
   | "remove", [k] => let (c', r, d) := c.remove k; done (fmtOptV r) c' d
+  | "removeres", [k] => if c.contains k then (let (c', r, d) := c.remove k; done (fmtOptV r) c' d) else done "skip" c []
   | "purge", [] =>
     match c.purge with
     | .error f => .fault f
@@ -753,8 +758,14 @@ def stepSt (w : World) (op : String) (sargs : List String) (implOut : String) : 
     match op, sargs with
     | "preq", [a, b] =>
       match parsePut a, parsePut b with
-      | some a, some b => done (fmtBool (PutResult.peq (fun x y => x == y) (fun x y => x == y) a b))
+      -- payload 9 is not equal to itself (a NaN-like value: `PartialEq` need not be reflexive)
+      | some a, some b => done (fmtBool (PutResult.peq (fun x y => x == y && x != 9) (fun x y => x == y && x != 9) a b))
       | _, _ => .bad "preq args"
+    | "preqself", [a] =>
+      -- `r == r` on ONE object: still decided by the payloads, not by identity
+      match parsePut a with
+      | some a => done (fmtBool (PutResult.peq (fun x y => x == y && x != 9) (fun x y => x == y && x != 9) a a))
+      | none => .bad "preqself args"
     | "prclone", [a] =>
       match parsePut a with
       | some a => done (fmtPut (PutResult.pclone id id a))
